@@ -85,6 +85,53 @@ pub fn run(ctx: &Ctx) {
             }
         }
     }
+    // every order of the six effectful ops, alone and after a Pop
+    let mut perm: Vec<usize> = (0..6).collect();
+    let mut pn = 0;
+    loop {
+        let ops: Vec<Op> = perm.iter().map(|i| effectful[*i]).collect();
+        check(ctx, &format!("effects/perm/{pn}"), &ops, &some_masks);
+        pn += 1;
+        // next permutation in lexicographic order
+        let Some(i) = (0..5).rev().find(|i| perm[*i] < perm[*i + 1]) else { break };
+        let j = (i + 1..6).rev().find(|j| perm[*j] > perm[i]).unwrap();
+        perm.swap(i, j);
+        perm[i + 1..].reverse();
+    }
+    // long programs: n single-byte ops, then a Push whose immediate carries an effect opcode (or 0x01 = a Push-looking byte) at one position,
+    // then optionally the effectful op itself: every n up to 1100 (block boundaries of 256 / 512 / 1024 bytes at every alignment), and around 4 096 / 10 000 / 65 536 bytes
+    let single = [1u8 << 0, 1 << 1, 1 << 2, 1 << 3, 1 << 4, 1 << 5, 63];
+    let mut lens: Vec<usize> = (0..=1100).collect();
+    for c in [4096usize, 8192, 10_000, 16_384, 20_000, 65_536] {
+        lens.extend(c - 12..=c + 3);
+    }
+    for (li, n) in lens.iter().enumerate() {
+        let e = li % 6;
+        let pos = (li / 6) % 8;
+        let filler: Op = if li % 2 == 0 { asm::Stack::Pop.into() } else { asm::Alu::Add.into() };
+        for (vi, imm_byte) in [eff_bytes[e], push_byte, 0].into_iter().enumerate() {
+            let mut ops = vec![filler; *n];
+            ops.push(asm::Stack::Push(((imm_byte as u64) << (8 * pos)) as i64).into());
+            check(ctx, &format!("effects/far/{n}/{vi}/none"), &ops, &single);
+            ops.push(asm::Stack::Pop.into());
+            ops.push(effectful[(e + 1) % 6]);
+            check(ctx, &format!("effects/far/{n}/{vi}/op"), &ops, &single);
+        }
+        let mut ops = vec![filler; *n];
+        ops.push(effectful[e]);
+        check(ctx, &format!("effects/far/{n}/tail"), &ops, &single);
+    }
+    // alternating Push / single-byte op for 1 200 rounds, then three pushes and an effectful op
+    for e in 0..6 {
+        let mut ops: Vec<Op> = vec![];
+        for i in 0..1200i64 {
+            ops.push(asm::Stack::Push(i << 20 | eff_bytes[e] as i64).into());
+            ops.push(asm::Stack::Pop.into());
+        }
+        check(ctx, &format!("effects/alternating/{e}/none"), &ops, &single);
+        ops.extend([Op::from(asm::Stack::Push(1)), asm::Stack::Push(2).into(), asm::Stack::Push(3).into(), effectful[e]]);
+        check(ctx, &format!("effects/alternating/{e}/op"), &ops, &single);
+    }
     // all six, in every rotation, followed by more ops
     for r in 0..6 {
         let mut ops: Vec<Op> = (0..6).map(|i| effectful[(i + r) % 6]).collect();
